@@ -25,3 +25,27 @@ package polygon
 //@   -- accepting marks exactly that (source chain, id) as done; nothing else in storage changes between check and mark
 //@   ensures[c20-marked] err == nil && r0 != nil && true ==> post[doneKeyB(id, src)] != None
 //@   ensures[c20-onlymarker] err == nil && r0 != nil && true ==> post == upd(pre, doneKeyB(id, src), post[doneKeyB(id, src)])
+
+// ---- C23: a deposit is accepted exactly on a confirmed canonical block whose state proves keccak(message) ----
+//@ func verifyMerkleProof
+//@   property C23
+//@   mode abstract
+//@   modifies nothing
+//@   ghost var addrOK bool = false
+//@   ghost var acctOK bool = false
+//@   ghost var gstorage [32]byte
+//@   set after "if !bytes.Equal(addr, contractAddr)" : addrOK := true
+//@   set after "if !bytes.Equal(acctrlp, acctVal)" : acctOK := true
+//@   set after "storageHash := ecommon.HexToHash(scom.Replace0x(polygonProof.StorageHash))" : gstorage := storageHash
+//@   callsite[c23-account-root] VerifyProof#1 requires arg0 == blockData.Root && addrOK
+//@   callsite[c23-storage-root] VerifyProof#2 requires arg0 == gstorage && acctOK
+//@   callsite[c23-account-value] EncodeToBytes#1 requires arg0 == acct && acct.Storage == gstorage
+//@   ensures[c23-proved] r1 == nil ==> addrOK && acctOK
+
+//@ func checkProofResult
+//@   property C23
+//@   mode abstract
+//@   modifies nothing
+
+// verifyFromTx of this router is not under contract for C23: it passes the address of a nested value field
+// (&headerWithSum.HeaderWithOptionalSnap.Header), which is outside the engine's memory model.
